@@ -16,6 +16,7 @@ import Driver.HangProto
 import Driver.FieldProto
 import Driver.EndProto
 import Driver.PunctProto
+import Driver.SugarProto
 import Driver.ConfigProto
 import Driver.SelectProto
 import Driver.TypeProto
@@ -108,6 +109,8 @@ def handle (line : String) : String :=
   | ["fieldkey", eol, ind, kind, a, b, c, d] => Driver.FieldProto.handle eol ind kind a b c d
   | ["endtoken", eol, ind, a] => Driver.EndProto.handle eol ind a
   | ["punct", eol, ind0, ind, vt, pl, pt, nl] => Driver.PunctProto.handle eol ind0 ind vt pl pt nl
+  | ["sugar", "drop", eol, a, b, c, d, f, g] => Driver.SugarProto.handleDrop eol a b c d f g
+  | ["sugar", "add", eol, c, d] => Driver.SugarProto.handleAdd eol c d
   | ["config", req] => Driver.ConfigProto.handle req
   | ["stdin", check, respect, ignored, parses, same] =>
       -- abstract run: the formatter is a parameter (parses? formatted = input?)
